@@ -134,3 +134,63 @@ func HarnessBucketInline() {
 	zz.Assert(db.Close() == nil, "inl/close")
 	zz.Reach("done")
 }
+
+// HarnessMetaSelect (K-META-SELECT; C01, C11): DB.meta() on an arbitrary pair of meta pages returns the
+// valid one with the larger txid, the other one if that one is invalid (damaged magic, version or
+// checksum), and panics only if both are invalid. Transaction ids are symbolic 64-bit values; the
+// checksum of a valid page is the real Meta.Sum64 of its (symbolic) content.
+func HarnessMetaSelect() {
+	mk := func(name string) (*common.Meta, bool) {
+		buf := make([]byte, 64)
+		m := (*common.Meta)(unsafe.Pointer(&buf[0]))
+		m.SetMagic(common.Magic)
+		m.SetVersion(common.Version)
+		m.SetPageSize(4096)
+		m.SetRootBucket(common.NewInBucket(3, 0))
+		m.SetFreelist(2)
+		m.SetPgid(4)
+		m.SetTxid(common.Txid(zz.U64(name + "txid")))
+		m.SetChecksum(m.Sum64())
+		valid := true
+		switch zz.Choose(4) {
+		case 1:
+			valid = false
+			buf[zz.Choose(4)] ^= 0x40 // magic
+		case 2:
+			valid = false
+			buf[4+zz.Choose(4)] ^= 0x01 // version
+		case 3:
+			valid = false
+			d := zz.U8(name + "damage")
+			zz.Assume(d != 0)
+			buf[56+zz.Choose(8)] ^= d // checksum field
+		}
+		return m, valid
+	}
+	m0, v0 := mk("m0")
+	m1, v1 := mk("m1")
+	db := &DB{meta0: m0, meta1: m1}
+	var got *common.Meta
+	panicked := zzCatch(func() { got = db.meta() })
+	switch {
+	case !v0 && !v1:
+		zz.Reach("both-invalid")
+		zz.Assert(panicked, "metaselect/both-invalid-panics")
+	case v0 && v1:
+		zz.Reach("both-valid")
+		zz.Assert(!panicked, "metaselect/no-panic-with-a-valid-meta")
+		if m1.Txid() > m0.Txid() {
+			zz.Assert(got == m1, "metaselect/larger-txid-wins")
+		} else if m0.Txid() > m1.Txid() {
+			zz.Assert(got == m0, "metaselect/larger-txid-wins")
+		} else {
+			zz.Assert(got == m0 || got == m1, "metaselect/tie-returns-one-of-them")
+		}
+	case v0:
+		zz.Reach("only-meta0-valid")
+		zz.Assert(!panicked && got == m0, "metaselect/falls-back-to-the-valid-meta0")
+	default:
+		zz.Reach("only-meta1-valid")
+		zz.Assert(!panicked && got == m1, "metaselect/falls-back-to-the-valid-meta1")
+	}
+}
